@@ -52,7 +52,10 @@ class BaseCube(object, metaclass=abc.ABCMeta):
         # The distance at which the fluxes are defined
         self.distance = distance
 
-        # The wavelengths and ap
+        # The wavelengths and ap (each of the wav and nu setters looks at the
+        # other one, so both have to exist before either is set)
+        self._wav = None
+        self._nu = None
         self.wav = wav
         self.nu = nu
         self.apertures = apertures
